@@ -80,6 +80,7 @@ func init() {
 		}),
 		sqlclient.RegisterDriverOpener(sqlite.Open),
 		sqlclient.RegisterTxOpener(sqlite.OpenTx),
+		sqlclient.RegisterCodec(sqlite.MarshalHCL, sqlite.EvalHCL),
 	)
 }
 
